@@ -152,6 +152,11 @@ def parse_spec(path):
         elif d == '@define':
             comp.defines.append(parts[1])
             i += 1
+        elif d == '@step_properties':
+            # properties whose obligations sit in the atomic-step stubs (G.legal, G.version, G.nogap ...): every group of the
+            # component that runs code is registered for them, because any function may perform such a step
+            comp.step_properties = getattr(comp, 'step_properties', []) + parts[1:]
+            i += 1
         elif d in ('@thread_local', '@noncopyable'):
             # static facts of the C++ text that the C extraction cannot express: `@thread_local CNAME Cxx...` (the object
             # must have thread storage duration), `@noncopyable CLASS Cxx...` (copy constructor and copy assignment deleted)
@@ -241,6 +246,11 @@ def parse_spec(path):
                 if x not in g.properties:
                     g.properties.append(x)
         comp.groups.append(g)
+    for g in comp.groups:
+        if not g.native and (g.enforce or g.harness):
+            for x in getattr(comp, 'step_properties', []):
+                if x not in g.properties:
+                    g.properties.append(x)
     # a group is registered for every property that a clause of its enforced function is tagged with
     for g in comp.groups:
         if g.enforce and g.enforce in comp.functions:
